@@ -212,6 +212,19 @@ func (s *Session) delSub(topic string) {
 	s.subsLock.Unlock()
 }
 
+// delStaleSub handles the asynchronous request of a topic to detach the session (eviction, topic
+// termination). The topic has already removed the subscription (see detachSession): whatever
+// is found here under the same name is either a leftover or a new subscription made meanwhile,
+// which is retained if it points to the currently loaded instance of the topic.
+func (s *Session) delStaleSub(topic string) {
+	if sub := s.getSub(topic); sub != nil && globals.hub != nil {
+		if t := globals.hub.topicGet(topic); t != nil && t.unreg == sub.done {
+			return
+		}
+	}
+	s.delSub(topic)
+}
+
 func (s *Session) countSub() int {
 	if s.multi != nil {
 		return s.multi.countSub()
@@ -386,6 +399,9 @@ func (s *Session) maybeScheduleClusterWriteLoop() {
 
 func (s *Session) detachSession(fromTopic string) {
 	if atomic.LoadInt32(&s.terminating) == 0 {
+		// Remove the subscription right away. The request below is processed asynchronously, by topic name only:
+		// by then the session may hold a new subscription to the same topic (see delStaleSub).
+		s.delSub(fromTopic)
 		s.detach <- fromTopic
 		s.maybeScheduleClusterWriteLoop()
 	}
